@@ -372,16 +372,18 @@ Fixpoint g_load (c : ctx) (fuel : nat) (stack : list path) (st : gstate) (dir : 
 
 Definition g_init : gstate := {| g_done := []; g_log := [] |}.
 
-Definition g_run_dir (c : ctx) (dir : path) : list event * option err :=
-  match g_load c (load_fuel (c_tree c)) [] g_init dir with
+Definition g_run_dir (c : ctx) (fuel : nat) (dir : path) : list event * option err :=
+  match g_load c fuel [] g_init dir with
   | (st, None) => (g_log st ++ [EvMain dir], None)
   | (st, Some x) => (g_log st, Some x)
   end.
 
-(** [go run .] in GOPATH/src/e *)
-Definition g_run_path (c : ctx) (e : path) : list event * option err := g_run_dir c (c_gsrc c ++ e).
+(** [go run .] in GOPATH/src/e; the fuel is more than the depth of any import chain *)
+Definition g_run_path (c : ctx) (e : path) : list event * option err :=
+  g_run_dir c (load_fuel (c_tree c)) (c_gsrc c ++ e).
 (** [go run <file>] in its directory *)
-Definition g_run_file (c : ctx) : list event * option err := g_run_dir c (c_entry c).
+Definition g_run_file (c : ctx) : list event * option err :=
+  g_run_dir c (S (load_fuel (c_tree c))) (c_entry c).
 
 (* ------------------------------------------------------------------ *)
 (** * Decidable side conditions (their negations are the known-finding regions) *)
